@@ -2289,7 +2289,8 @@ fn eval_int_binop(
                 ));
             }
 
-            if rhs_num > u32::MAX as i64 {
+            // Only 0, 1 and -1 have powers this large that fit in an Int.
+            if rhs_num > u32::MAX as i64 && (lhs_num < -1 || lhs_num > 1) {
                 return Err((
                     RestoreValues(vec![lhs_value.clone(), rhs_value.clone()]),
                     EvalError::Exception(ExceptionInfo {
@@ -2303,7 +2304,15 @@ fn eval_int_binop(
                 ));
             }
 
-            match lhs_num.checked_pow(rhs_num as u32) {
+            // For 0, 1 and -1 a huge power only depends on whether
+            // the exponent is even.
+            let exponent = if rhs_num > u32::MAX as i64 {
+                (2 - rhs_num % 2) as u32
+            } else {
+                rhs_num as u32
+            };
+
+            match lhs_num.checked_pow(exponent) {
                 Some(num) => Value::new(Value_::Int(num)),
                 None => {
                     return Err((
